@@ -432,6 +432,10 @@ def run_pipeline(spec):
             d = orf._parametric["data"][0]
             idx = np.argsort(d[:, 2])
             dp_limit = float(np.interp(m_expected / len(sid) * extra["dp_f"], d[idx, 2], d[idx, 3])) / 1e6
+            if not np.isfinite(dp_limit):
+                # the parametric sweeps returned an undefined pressure drop (friction correlation far outside its range)
+                o.inconclusive = "parametric_pressure_drop_undefined"
+                return o
             orf.orifice_input["pressure_drop_limit"] = dp_limit
         o.classes["dp_limit"] = dp_limit is not None
         res_prev, t_out_prev = None, None
